@@ -618,11 +618,24 @@ package originium
 //@ assigns SLSrc, SLIdx
 //
 //@ func (*originium.memtable).set
-//@ props C14 C03 C04
-//@ requires mt != nil && mt.wal != nil && walOK(mt.wal)
-//@ thin ^post|^pre\..*wal
+//@ props C14 C03 C04 C01
+//@ requires mt != nil && mt.wal != nil && walOK(mt.wal) && mtOK(mt) && wf(entry.Key)
+//@ thin ^post|^pre\..*wal|^pre\..*skiplist
 //@ assigns writeset
 //@ ensures DskSync[mt.wal.path] == len(DskData[mt.wal.path]) && DskData[mt.wal.path] == old(DskData[mt.wal.path]) + WalRec
+// functional effect (C01 write path): exactly skiplist.Set's effect on the memtable's own skiplist
+//@ ensures mt.skiplist == old(mt.skiplist) && mt.wal == old(mt.wal)
+//@ ensures forall(P_skiplist_Element(x), (ElList[ref(x)] != ref(mt.skiplist) && ref(x) < old(alloc)) ==> (x.Entry == old(x.Entry) && x.next == old(x.next)), trig(ElList[ref(x)]))
+//@ ensures forall(Int(a), Int(j), (a < old(alloc) && ElList[ArrOwner[a]] != ref(mt.skiplist)) ==> elemat(*skiplist.Element, a, j) == old(elemat(*skiplist.Element, a, j)), trig(elemat(*skiplist.Element, a, j)))
+//@ ensures forall(Int(x), x < old(alloc) ==> ElList[x] == old(ElList)[x], trig(ElList[x])) && forall(Int(a), a < old(alloc) ==> ArrOwner[a] == old(ArrOwner)[a], trig(ArrOwner[a]))
+//@ ensures forall(Int(l), l != ref(mt.skiplist) ==> SLMem[l] == old(SLMem)[l], trig(SLMem[l]))
+//@ ensures SL(mt.skiplist) && mt.skiplist.maxLevel == old(mt.skiplist.maxLevel) && mt.skiplist.head == old(mt.skiplist.head)
+//@ ensures SLMem[ref(mt.skiplist)][SLW] && SLW != ref(mt.skiplist.head) && cmp(cast(P_skiplist_Element, SLW).Entry.Key, entry.Key) == 0 && cast(P_skiplist_Element, SLW).Entry.Value == entry.Value && cast(P_skiplist_Element, SLW).Entry.Tombstone == entry.Tombstone
+//@ ensures old(SLMem)[ref(mt.skiplist)][SLW] ==> (cast(P_skiplist_Element, SLW).Entry.Key == old(cast(P_skiplist_Element, now(SLW)).Entry.Key) && cast(P_skiplist_Element, SLW).Entry.Version == old(cast(P_skiplist_Element, now(SLW)).Entry.Version))
+//@ ensures !old(SLMem)[ref(mt.skiplist)][SLW] ==> (SLW >= old(alloc) && cast(P_skiplist_Element, SLW).Entry == entry)
+//@ ensures forall(Int(x), old(SLMem)[ref(mt.skiplist)][x] ==> SLMem[ref(mt.skiplist)][x], trig(old(SLMem)[ref(mt.skiplist)][x]))
+//@ ensures forall(Int(x), SLMem[ref(mt.skiplist)][x] ==> (old(SLMem)[ref(mt.skiplist)][x] || x == SLW), trig(SLMem[ref(mt.skiplist)][x]))
+//@ ensures forall(P_skiplist_Element(x), (old(SLMem)[ref(mt.skiplist)][ref(x)] && ref(x) != SLW) ==> x.Entry == old(x.Entry), trig(SLMem[ref(mt.skiplist)][ref(x)]))
 //
 //@ func (*originium.memtable).recover -> r
 //@ props C14 C03
